@@ -361,6 +361,15 @@ def _naive_eof(text: str, sc: Scan) -> T.Tuple[int, int]:
     return line, s - (text.rfind('\n', 0, s) + 1) + (e - s)
 
 
+# Known-defect classes whose affected clause is skipped (and counted) in the campaigns.  Remove a key here once the defect is
+# fixed in the tree (or set VERIF_C02_ENFORCE=key,key,... / =all for one run - development aid) and the class is searched again.
+EXCLUDE_KNOWN = {'not', 'nlstr', 'kwpos', 'deep', 'bignum', 'emptykey', 'eofml'}
+_enf = set(x for x in os.environ.get('VERIF_C02_ENFORCE', '').split(',') if x)
+if 'all' in _enf:
+    EXCLUDE_KNOWN = set()
+EXCLUDE_KNOWN -= _enf
+
+
 def _case(text: str, **kw: T.Any) -> dict:
     d: T.Dict[str, T.Any] = {'text': text}
     d.update(kw)
@@ -424,10 +433,10 @@ def judge(text: str, known: bool = True, heavy: bool = True) -> Res:
     if len(text) >= 30:
         sc = r.scan = Scan(text)
         if known:
-            if est_frames(sc) > FRAME_BUDGET:
+            if 'deep' in EXCLUDE_KNOWN and est_frames(sc) > FRAME_BUDGET:
                 r.excluded.append(EX_DEEP)
                 return r
-            if cls_huge_number(sc):
+            if 'bignum' in EXCLUDE_KNOWN and cls_huge_number(sc):
                 r.excluded.append(EX_BIGNUM)
                 return r
     # ---- parse
@@ -448,12 +457,12 @@ def judge(text: str, known: bool = True, heavy: bool = True) -> Res:
             if sc is None:
                 sc = r.scan = Scan(text)
             if cls_newline_in_plain_string(sc):
-                if known:
+                if known and 'nlstr' in EXCLUDE_KNOWN:
                     r.excluded.append(EX_NLSTR)
                     return r
                 sig = 'position/newline-in-plain-string'
             elif cls_eof_after_multiline_string(sc) and (ln, col) == _naive_eof(text, sc):
-                if known:
+                if known and 'eofml' in EXCLUDE_KNOWN:
                     r.excluded.append(EX_EOFML)
                     return r
                 sig = 'reject/location-outside-text:eof-after-multiline-string'
@@ -466,7 +475,7 @@ def judge(text: str, known: bool = True, heavy: bool = True) -> Res:
         return r
     except Exception as e:   # noqa: BLE001 - the property: no internal Python error ever escapes
         sig = _crash_sig('parse', e)
-        if known and sig == 'crash/TypeError:unhashable-EmptyNode' and '{' in text and ':' in text:
+        if known and 'emptykey' in EXCLUDE_KNOWN and sig == 'crash/TypeError:unhashable-EmptyNode' and '{' in text and ':' in text:
             r.excluded.append(EX_EMPTYKEY)
             return r
         r.fail = Failure(sig, _case(text), f'Parser({_short(text)}).parse() raised {type(e).__name__}: {str(e)[:120]} [{_tb_tail(e)}] '
@@ -486,10 +495,10 @@ def judge(text: str, known: bool = True, heavy: bool = True) -> Res:
         return r
     skip_rt = False
     if known:
-        if cls_dangling_not(sc):
+        if 'not' in EXCLUDE_KNOWN and cls_dangling_not(sc):
             r.excluded.append(EX_NOT)
             skip_rt = True
-        if cls_positional_after_kwarg(sc):
+        if 'kwpos' in EXCLUDE_KNOWN and cls_positional_after_kwarg(sc):
             r.excluded.append(EX_KWPOS)
             skip_rt = True
     if out != text and not skip_rt:
@@ -500,7 +509,7 @@ def judge(text: str, known: bool = True, heavy: bool = True) -> Res:
     # ---- positions
     if not sc.complete:
         r.events.append('scanner_incomplete_on_accepted_text')
-    elif cls_newline_in_plain_string(sc) and known:
+    elif known and 'nlstr' in EXCLUDE_KNOWN and cls_newline_in_plain_string(sc):
         r.excluded.append(EX_NLSTR)
     else:
         f = check_extents(text, sc, tree, M, r)
@@ -1108,7 +1117,8 @@ def _special_shard(shard: T.Tuple[int, int], ev: Evidence, fails: T.List[Failure
     sigs: T.Set[str] = set()
     for cls, text in special_cases()[lo:hi]:
         r = judge(text, heavy=len(text) < 50000)
-        _record(ev, text, r, 'special:' + cls)
+        _record(ev, text, r, 'special')
+        ev.event('special-class:' + cls)
         if r.fail is not None and r.fail.sig not in sigs:
             sigs.add(r.fail.sig)
             fails.append(_shrink_text(r.fail))
